@@ -108,7 +108,8 @@ func (c c10CaseA) coq() string {
 	collectClosures(c.Fn.Body, &cls)
 	funcs := []string{fmt.Sprintf("(%d, %s)", c.Fn.Results, c10List(c.Fn.Body, !c.Fn.ShadowPanic))}
 	for _, cl := range cls {
-		funcs = append(funcs, fmt.Sprintf("(%d, %s)", cl.Results, c10List(cl.Body, true)))
+		// a parameter named panic of the enclosing function is in scope inside its closures too
+		funcs = append(funcs, fmt.Sprintf("(%d, %s)", cl.Results, c10List(cl.Body, !c.Fn.ShadowPanic)))
 	}
 	var defs, uses []string
 	labelEvents(c.Fn.Body, &defs, &uses)
